@@ -40,6 +40,10 @@ func init() {
 			if g.Bool(0.25) {
 				sc.SetInt("warm", 1)
 			}
+			if g.Bool(0.3) {
+				sc.SetInt("handle", g.Range(1, 2))
+				sc.SetInt("viahandle", g.Intn(2))
+			}
 			return sc
 		},
 		Expand: expandCuts,
@@ -94,7 +98,10 @@ func init() {
 				sc.Stages = append(sc.Stages, StageSpec{Op: g.Pick("Map", "Tap", "Filter", "Scan", "StartWith", "TapOnFinalize", "TakeLast", "DefaultIfEmpty", "MaterializeDematerialize"), P: []int{1}})
 			}
 			sc.SetInt("slow", g.Intn(2))
-			sc.SetInt("raw", g.Intn(2))
+			sc.SetInt("raw", g.PickInt(0, 0, 1, 1, 2, 3))
+			if g.Bool(0.15) {
+				sc.SetInt("nilobs", 1) // Subscribe(nil): nobody listens, the subscription still has to end
+			}
 			return sc
 		},
 		Run: func(e *Env) {
@@ -104,7 +111,12 @@ func init() {
 				// a consumer that yields inside Next keeps the producer lock busy while the others arrive
 				rec.OnNextHook = func(r *Rec, v int) { e.Yield(); e.Yield() }
 			}
-			h := e.Subscribe(o, rec.Obs(), nil)
+			nilobs := e.Sc.Int("nilobs", 0) == 1
+			var obs ro.Observer[int] = rec.Obs()
+			if nilobs {
+				obs = nil
+			}
+			h := e.Subscribe(o, obs, nil)
 			e.SettleFor(100 * Unit)
 			if e.K.Capped() {
 				return
@@ -134,6 +146,9 @@ func init() {
 			if s.Live != 0 || s.Teardowns != 1 {
 				e.Violate("C03", "source-not-released", fmt.Sprintf("the producer's terminal call returned but the source teardown ran %d times (live=%d, trace %s)", s.Teardowns, s.Live, rec.Trace()))
 			}
+			if nilobs {
+				return // nothing was recorded: the delivery oracles do not apply
+			}
 			for _, c := range s.Calls {
 				if c.Step.K == "E" && c.Panic == nil && rec.Terminal() == 0 {
 					e.Violate("C07", "source-error-lost", fmt.Sprintf("the source's Error call returned (no terminal had been sent before) but the subscriber never received an Error (trace %s)", rec.Trace()))
@@ -152,7 +167,7 @@ func init() {
 		Weight: 3,
 		Gen: func(g *Gen) *Scn {
 			sc := &Scn{Family: "C03.race"}
-			sc.Sub = g.Pick("subscription", "subscriber-safe", "subscriber-unsafe")
+			sc.Sub = g.Pick("subscription", "subscriber-safe", "subscriber-unsafe", "subscriber-eventually", "subscriber-default")
 			sc.SetInt("teardowns", g.Range(1, 4))
 			sc.SetInt("panicmask", g.PickInt(0, 0, 0, 1, 2, 3, 5, 6))
 			sc.SetInt("unsub", g.Range(1, 3))
@@ -186,7 +201,7 @@ func runCut(e *Env, prop string) {
 		if len(obs) < c.Min {
 			return
 		}
-		o = c.Build(e, obs)
+		o = c.Apply(e, obs)
 		o = e.BuildChain(o, sc.Stages, func(i int) ro.Observable[int] { return ro.Empty[int]() })
 	} else {
 		o, srcs = e.Pipeline()
@@ -195,6 +210,7 @@ func runCut(e *Env, prop string) {
 	inside := sc.Sub == "inside" && sc.Int("outside", 0) == 0
 	rec := e.NewRec("o")
 	var h *SubHandle
+	var handle ro.Subscriber[int]
 	unsubDone := false
 	unsubCalled := false
 	doUnsub := func() {
@@ -208,7 +224,12 @@ func runCut(e *Env, prop string) {
 					e.Violate(prop, "unsubscribe-panics", fmt.Sprintf("Unsubscribe panicked: %v", r))
 				}
 			}()
-			h.Sub().Unsubscribe()
+			if handle != nil && sc.Int("viahandle", 0) == 1 {
+				// the caller made the subscriber itself and ends the subscription through it
+				handle.Unsubscribe()
+			} else {
+				h.Sub().Unsubscribe()
+			}
 		}()
 		unsubDone = true
 	}
@@ -254,7 +275,16 @@ func runCut(e *Env, prop string) {
 			}
 		}
 	}
-	h = e.Subscribe(o, rec.Observer(), nil)
+	var observer ro.Observer[int] = rec.Observer()
+	switch sc.Int("handle", 0) {
+	case 1:
+		handle = ro.NewUnsafeSubscriber(observer)
+		observer = handle
+	case 2:
+		handle = ro.NewSafeSubscriber(observer)
+		observer = handle
+	}
+	h = e.Subscribe(o, observer, nil)
 	if cut >= 0 {
 		e.Go("canceller", func() {
 			e.WaitFor(func() bool { return h.Ret() && len(rec.Events) >= cut })
@@ -361,9 +391,14 @@ func runTeardownRace(e *Env) {
 			sub.Add(mk(i))
 		}
 	default:
-		if sc.Sub == "subscriber-unsafe" {
+		switch sc.Sub {
+		case "subscriber-unsafe":
 			ser = ro.NewUnsafeSubscriber(rec.Observer())
-		} else {
+		case "subscriber-eventually":
+			ser = ro.NewEventuallySafeSubscriber(rec.Observer())
+		case "subscriber-default":
+			ser = ro.NewSubscriber(rec.Observer())
+		default:
 			ser = ro.NewSafeSubscriber(rec.Observer())
 		}
 		sub = ser
